@@ -3,6 +3,7 @@ From Base Require Import Prelude Sx Json JsonText.
 From Coq Require Import Permutation.
 From C01 Require Import Spec Model Proofs.
 From C01 Require Roundtrip.
+From Gen Require Import SigConsts.
 
 (** The compact serializer applied to the stored form (UTF-8 strings, BTreeMap objects) of any
     representable value emits exactly the specification's canonical encoding: members in
@@ -72,3 +73,13 @@ Theorem C01_print_injective :
 Proof. exact Roundtrip.print_injective. Qed.
 Eval compute in "PA:C01_print_injective"%string.
 Print Assumptions C01_print_injective.
+
+(** ruma_signatures::canonical_json is the canonical encoding of the object without exactly
+    `signatures` and `unsigned`, with no size limit (table and wiring read from functions.rs on every
+    run; the harness compares its output with the encoding of the object minus these two members). *)
+Theorem C01_signatures_canonical_json_leaves_out_exactly :
+  src_canonical_json_fields = [s!"signatures"; s!"unsigned"] /\
+  src_canonical_json_size_checked = false /\ src_helper_size_checked = false.
+Proof. repeat split; vm_compute; reflexivity. Qed.
+Eval compute in "PA:C01_signatures_canonical_json_leaves_out_exactly"%string.
+Print Assumptions C01_signatures_canonical_json_leaves_out_exactly.
